@@ -515,3 +515,98 @@ where
     keyspace.send(msg).await?;
     Ok(())
 }
+
+#[cfg(datacake_verif)]
+/// Verification hooks: the steps of one repair exchange against a single peer,
+/// callable one at a time (and in a caller chosen order) by a harness.
+pub mod verif {
+    use super::*;
+
+    fn context<S: Storage>(group: &KeyspaceGroup<S>, network: &RpcNetwork) -> ReplicationCycleContext<S> {
+        ReplicationCycleContext {
+            repair_interval: Duration::from_secs(3600),
+            group: group.clone(),
+            network: network.clone(),
+        }
+    }
+
+    /// The real `get_keyspace_diff`: fetches the peer's state and diffs it against ours.
+    /// Returns (modified, removed, the peer's last-updated stamp).
+    pub async fn keyspace_diff<S: Storage>(
+        group: &KeyspaceGroup<S>,
+        network: &RpcNetwork,
+        keyspace: &str,
+        target_node_id: NodeId,
+        target_addr: SocketAddr,
+    ) -> Result<(DocVec<DocumentMetadata>, DocVec<DocumentMetadata>, HLCTimestamp), Status> {
+        let channel = network.get_or_connect(target_addr);
+        let client = ReplicationClient::<S>::new(group.clock().clone(), channel);
+        get_keyspace_diff(
+            keyspace.to_string(),
+            target_node_id.to_string(),
+            target_addr,
+            group.clone(),
+            client,
+        )
+        .await
+        .map(|d| (d.modified, d.removed, d.last_updated))
+        .map_err(|e| e.cause)
+    }
+
+    /// The real `handle_removals`.
+    pub async fn apply_removals<S: Storage>(
+        group: &KeyspaceGroup<S>,
+        keyspace: &str,
+        removed: DocVec<DocumentMetadata>,
+    ) -> Result<(), anyhow::Error> {
+        let keyspace = group.get_or_create_keyspace(keyspace).await;
+        handle_removals(keyspace, removed).await
+    }
+
+    /// The real `handle_modified`.
+    pub async fn apply_modified<S: Storage>(
+        group: &KeyspaceGroup<S>,
+        network: &RpcNetwork,
+        keyspace: &str,
+        modified: DocVec<DocumentMetadata>,
+        target_node_id: NodeId,
+        target_addr: SocketAddr,
+    ) -> Result<(), anyhow::Error> {
+        let channel = network.get_or_connect(target_addr);
+        let keyspace = group.get_or_create_keyspace(keyspace).await;
+        let client = ReplicationClient::new(group.clock().clone(), channel.clone());
+        let ctx = PutContext {
+            progress: ProgressTracker::default(),
+            remote_node_id: target_node_id,
+            remote_addr: target_addr,
+            remote_rpc_channel: channel,
+        };
+        handle_modified(client, keyspace, modified, ctx).await
+    }
+
+    /// The real `begin_keyspace_sync` (both halves concurrently, progress watcher included).
+    pub async fn sync_keyspace<S: Storage>(
+        group: &KeyspaceGroup<S>,
+        network: &RpcNetwork,
+        keyspace: &str,
+        target_node_id: NodeId,
+        target_addr: SocketAddr,
+        removed: DocVec<DocumentMetadata>,
+        modified: DocVec<DocumentMetadata>,
+    ) -> Result<(), anyhow::Error> {
+        let ctx = context(group, network);
+        begin_keyspace_sync(&ctx, keyspace.to_string(), target_node_id, target_addr, removed, modified).await
+    }
+
+    /// One round of the real poller against the given members (poll keyspace stamps,
+    /// diff every changed keyspace, sync it), with a fresh keyspace tracker.
+    pub async fn repair_round<S: Storage>(
+        group: &KeyspaceGroup<S>,
+        network: &RpcNetwork,
+        members: &BTreeMap<NodeId, SocketAddr>,
+    ) {
+        let ctx = context(group, network);
+        let mut tracker = KeyspaceTracker::default();
+        repair_members(&ctx, members, &mut tracker).await;
+    }
+}
